@@ -65,6 +65,10 @@ def _work(idx):
                                             cfg['repo_src'], cfg['verif'])[0]
                     o['random_search'] = {'tried': nat.get('tried'), 'pre_held': nat.get('pre_held'), 'failures': nat.get('failures', [])[:2]}
                     break
+        if r['status'] in ('out-of-subset', 'undecided') and not r['obligations']:
+            # DESIGN 3.5: a function outside the subset (or an undecided contract) gets a bounded concrete search with the run-time contract
+            nat = xcheck.run_native([{'sidecar': c['module'], 'contract': c['name'], 'random': cfg['random_n'], 'seed': cfg['seed']}], cfg['repo_src'], cfg['verif'])[0]
+            r['random_search'] = {'tried': nat.get('tried'), 'pre_held': nat.get('pre_held'), 'failures': nat.get('failures', [])[:2]}
         if r['status'] in ('discharged', 'failed') and cfg['xcheck_n'] > 0 and not c['meta'].get('no_xcheck'):
             r['crosscheck'] = xcheck.crosscheck(c, e.last_recs, cfg['repo_src'], cfg['verif'], r.get('pre_witness'), n=cfg['xcheck_n'], seed=cfg['seed'])
     except Exception:
@@ -162,8 +166,19 @@ def check_property(pid, tier, seed, repo_src, verif, jobs=16, only=None, verbose
             functions.append({'function': r['target'], 'contract': r['contract'], **r['source'], 'paths': r.get('paths'),
                               'inlined': r.get('inlined', [])})
         if r['status'] in ('out-of-subset', 'undecided', 'contract-error') and not r['obligations']:
-            undecided.append(f"{r['contract']}: {r['status']}: {'; '.join(r.get('notes', []))}")
+            rs = r.get('random_search') or {}
+            bad = [f for f in rs.get('failures', []) if f.get('failed')]
             n_ob += 1
+            if bad:
+                key = f"{r['sidecar'].split('.')[-1]}.{r['contract']}#" + bad[0]['failed'][0]
+                fname = os.path.join('replays', f"{pid}-{r['contract']}-bounded-search.json")
+                json.dump({'property': pid, 'obligation': key, 'function': r['target'], 'sidecar': r['sidecar'], 'contract': r['contract'],
+                           'status': 'confirmed-by-bounded-search (the contract is outside the symbolic subset: ' + '; '.join(r.get('notes', [])) + ')',
+                           'leaves': {k: _leaf_json(v) for k, v in (bad[0].get('leaves_used') or {}).items()}, 'native': bad[0]},
+                          open(os.path.join(verif, fname), 'w'), indent=1, default=str)
+                violations.append((key, fname, ''))
+            else:
+                undecided.append(f"{r['contract']}: {r['status']}: {'; '.join(r.get('notes', []))}")
             continue
         x = r.get('crosscheck')
         if x:
